@@ -13,11 +13,11 @@ import (
 type Sym interface{ String() string }
 
 type (
-	SWord    struct{}                   // the flag word under test (receiver, or receiver.Field)
-	SConst   struct{ V constant.Value } // integer or boolean constant
-	SKey     struct{ Obj types.Object } // key variable of a `range` over a table
-	SAnd     struct{ A, B Sym }
-	SCmp     struct {
+	SWord  struct{}                   // the flag word under test (receiver, or receiver.Field)
+	SConst struct{ V constant.Value } // integer or boolean constant
+	SKey   struct{ Obj types.Object } // key variable of a `range` over a table
+	SAnd   struct{ A, B Sym }
+	SCmp   struct {
 		Op   token.Token // EQL | NEQ
 		A, B Sym
 	}
@@ -25,11 +25,13 @@ type (
 	SUnknown struct{ Why string }
 )
 
-func (SWord) String() string      { return "word" }
-func (s SConst) String() string   { return s.V.ExactString() }
-func (s SKey) String() string     { return "key(" + s.Obj.Name() + ")" }
-func (s SAnd) String() string     { return "(" + s.A.String() + " & " + s.B.String() + ")" }
-func (s SCmp) String() string     { return "(" + s.A.String() + " " + s.Op.String() + " " + s.B.String() + ")" }
+func (SWord) String() string    { return "word" }
+func (s SConst) String() string { return s.V.ExactString() }
+func (s SKey) String() string   { return "key(" + s.Obj.Name() + ")" }
+func (s SAnd) String() string   { return "(" + s.A.String() + " & " + s.B.String() + ")" }
+func (s SCmp) String() string {
+	return "(" + s.A.String() + " " + s.Op.String() + " " + s.B.String() + ")"
+}
 func (s SNot) String() string     { return "!" + s.X.String() }
 func (s SUnknown) String() string { return "?" + s.Why }
 
@@ -58,6 +60,17 @@ type Evaluator struct {
 	Env    map[types.Object]Sym
 	Defs   map[types.Object]ast.Expr // locals with exactly one definition
 	Source FuncSource
+	// Static tables (see static.go). Bind holds loop variables bound to the row
+	// of a constant table while the loop body is interpreted for that row; Vars
+	// gives the initialiser of package-level variables; Tables, when non-nil,
+	// collects every variable that was consulted as a constant table (the caller
+	// must make sure none of them is ever written).
+	Bind map[types.Object]Val
+	// OkDefs: locals defined once by `v, ok := T[k]` (see CommaOkDefs); they are
+	// evaluated against the constant table T under the current row bindings.
+	OkDefs map[types.Object]OkDef
+	Vars   VarSource
+	Tables map[*types.Var]bool
 	depth  int
 }
 
@@ -130,6 +143,92 @@ func SingleDefs(info *types.Info, body *ast.BlockStmt) map[types.Object]ast.Expr
 	return defs
 }
 
+// OkDef is one variable of a `v, ok := T[k]` definition.
+type OkDef struct {
+	Index *ast.IndexExpr
+	Ok    bool // the comma-ok flag (false: the value)
+}
+
+// CommaOkDefs returns the locals of body defined exactly once by a comma-ok
+// index expression and never assigned again.
+func CommaOkDefs(info *types.Info, body *ast.BlockStmt) map[types.Object]OkDef {
+	defs := map[types.Object]OkDef{}
+	if body == nil {
+		return defs
+	}
+	count := map[types.Object]int{}
+	ast.Inspect(body, func(n ast.Node) bool {
+		switch n := n.(type) {
+		case *ast.AssignStmt:
+			ie, isIdx := ast.Unparen(n.Rhs[0]).(*ast.IndexExpr)
+			for i, l := range n.Lhs {
+				id, ok := ast.Unparen(l).(*ast.Ident)
+				if !ok || id.Name == "_" {
+					continue
+				}
+				o := info.Defs[id]
+				if o == nil {
+					o = info.Uses[id]
+				}
+				if o == nil {
+					continue
+				}
+				count[o]++
+				if n.Tok == token.DEFINE && len(n.Lhs) == 2 && len(n.Rhs) == 1 && isIdx && info.Defs[id] != nil {
+					defs[o] = OkDef{Index: ie, Ok: i == 1}
+				}
+			}
+		case *ast.IncDecStmt:
+			if id, ok := ast.Unparen(n.X).(*ast.Ident); ok && info.Uses[id] != nil {
+				count[info.Uses[id]] += 2
+			}
+		case *ast.UnaryExpr:
+			if id, ok := ast.Unparen(n.X).(*ast.Ident); ok && n.Op == token.AND && info.Uses[id] != nil {
+				count[info.Uses[id]] += 2
+			}
+		case *ast.RangeStmt:
+			for _, e := range []ast.Expr{n.Key, n.Value} {
+				if id, ok := e.(*ast.Ident); ok && n.Tok == token.ASSIGN && info.Uses[id] != nil {
+					count[info.Uses[id]] += 2
+				}
+			}
+		}
+		return true
+	})
+	for o := range defs {
+		if count[o] != 1 {
+			delete(defs, o)
+		}
+	}
+	return defs
+}
+
+// hasKey decides `_, ok := T[k]` for a constant map table T and a constant key k.
+func (ev *Evaluator) hasKey(ie *ast.IndexExpr) (bool, string) {
+	ct, why := ev.Table(ie.X)
+	if why != "" {
+		return false, why
+	}
+	if ct.Kind != "map" {
+		return false, types.ExprString(ie.X) + " is not a map"
+	}
+	k, ok := ev.Eval(ie.Index).(SConst)
+	if !ok || k.V.Kind() != constant.Int {
+		return false, "key " + types.ExprString(ie.Index) + " is not a constant"
+	}
+	for _, row := range ct.Rows {
+		tv := row.Key.Info.Types[row.Key.E]
+		if tv.Value == nil {
+			return false, "a key of " + ct.Name + " is not a constant"
+		}
+		rk := constant.ToInt(tv.Value)
+		if rk.Kind() == constant.Int && constant.Compare(rk, token.EQL, k.V) {
+			return true, ""
+		}
+	}
+	return false, ""
+}
+
 func isIntegerType(t types.Type) bool {
 	b, ok := t.Underlying().(*types.Basic)
 	return ok && b.Info()&types.IsInteger != 0
@@ -161,19 +260,91 @@ func (ev *Evaluator) Eval(e ast.Expr) Sym {
 		if s, ok := ev.Env[o]; ok {
 			return s
 		}
+		if b, ok := ev.Bind[o]; ok {
+			v, why := ev.static(b, 0)
+			if why != "" {
+				return SUnknown{"row variable " + e.Name + ": " + why}
+			}
+			return ev.constOf(v, "row variable "+e.Name)
+		}
 		if rhs, ok := ev.Defs[o]; ok && ev.depth < 8 {
 			ev.depth++
 			s := ev.Eval(rhs)
 			ev.depth--
 			return s
 		}
+		if d, ok := ev.OkDefs[o]; ok && ev.depth < 8 {
+			ev.depth++
+			defer func() { ev.depth-- }()
+			if d.Ok {
+				found, why := ev.hasKey(d.Index)
+				if why != "" {
+					return SUnknown{"membership " + e.Name + ": " + why}
+				}
+				return SConst{constant.MakeBool(found)}
+			}
+			v, why := ev.Static(d.Index)
+			if why != "" {
+				return SUnknown{e.Name + ": " + why}
+			}
+			return ev.constOf(v, e.Name)
+		}
 		return SUnknown{"identifier " + e.Name}
+	case *ast.SelectorExpr, *ast.IndexExpr:
+		// a field of a bound row, an element of a constant table
+		v, why := ev.Static(e)
+		if why != "" {
+			return SUnknown{types.ExprString(e) + ": " + why}
+		}
+		return ev.constOf(v, types.ExprString(e))
 	case *ast.BinaryExpr:
 		switch e.Op {
 		case token.AND:
-			return SAnd{ev.Eval(e.X), ev.Eval(e.Y)}
+			x, y := ev.Eval(e.X), ev.Eval(e.Y)
+			if f, ok := foldInts(e.Op, x, y); ok {
+				return f
+			}
+			return SAnd{x, y}
 		case token.EQL, token.NEQ:
 			return SCmp{e.Op, ev.Eval(e.X), ev.Eval(e.Y)}
+		case token.GTR, token.LSS, token.GEQ, token.LEQ:
+			// on an unsigned word: x > 0, 0 < x, x >= 1 are x != 0;  x <= 0, x < 1 are x == 0
+			x, y, op := e.X, e.Y, e.Op
+			if tv, ok := ev.Info.Types[y]; ok && tv.Value == nil {
+				x, y = y, x
+				op = map[token.Token]token.Token{token.GTR: token.LSS, token.LSS: token.GTR, token.GEQ: token.LEQ, token.LEQ: token.GEQ}[op]
+			}
+			if tv, ok := ev.Info.Types[x]; ok && tv.Type != nil {
+				if b, ok := tv.Type.Underlying().(*types.Basic); ok && b.Info()&types.IsUnsigned != 0 {
+					if k, ok := ev.Eval(y).(SConst); ok && k.V.Kind() == constant.Int {
+						zero := constant.MakeInt64(0)
+						n, _ := constant.Int64Val(k.V)
+						switch {
+						case op == token.GTR && n == 0, op == token.GEQ && n == 1:
+							return SCmp{token.NEQ, ev.Eval(x), SConst{zero}}
+						case op == token.LEQ && n == 0, op == token.LSS && n == 1:
+							return SCmp{token.EQL, ev.Eval(x), SConst{zero}}
+						}
+					}
+				}
+			}
+			return SUnknown{"operator " + e.Op.String()}
+		case token.LAND, token.LOR:
+			// a constant operand (e.g. the membership of the row's key in a constant table) folds away
+			x, y := ev.Eval(e.X), ev.Eval(e.Y)
+			for _, p := range [][2]Sym{{x, y}, {y, x}} {
+				if b, ok := boolOf(p[0]); ok {
+					if b == (e.Op == token.LAND) {
+						return p[1]
+					}
+					return SConst{constant.MakeBool(b)}
+				}
+			}
+			return SUnknown{"operator " + e.Op.String()}
+		case token.OR, token.XOR, token.AND_NOT, token.SHL, token.SHR, token.ADD, token.SUB, token.MUL:
+			if f, ok := foldInts(e.Op, ev.Eval(e.X), ev.Eval(e.Y)); ok {
+				return f
+			}
 		}
 		return SUnknown{"operator " + e.Op.String()}
 	case *ast.UnaryExpr:
@@ -188,9 +359,60 @@ func (ev *Evaluator) Eval(e ast.Expr) Sym {
 			}
 			return SUnknown{"conversion"}
 		}
+		if isBuiltin(ev.Info, e, "len") && len(e.Args) == 1 {
+			if ct, why := ev.Table(e.Args[0]); why == "" {
+				return SConst{constant.MakeInt64(int64(len(ct.Rows)))}
+			}
+			return SUnknown{"len of a non-constant"}
+		}
 		return ev.inline(e)
 	}
 	return SUnknown{fmt.Sprintf("%T", e)}
+}
+
+// constOf turns a statically resolved value into a constant symbol.
+func (ev *Evaluator) constOf(v Val, what string) Sym {
+	tv, ok := v.Info.Types[v.E]
+	if !ok || tv.Value == nil {
+		// a bound row that is itself an expression over constants and tables
+		if _, isLit := v.E.(*ast.CompositeLit); !isLit && ev.depth < 8 {
+			sub := ev.with(v.Info)
+			sub.depth = ev.depth + 1
+			if s := sub.Eval(v.E); !hasUnknown(s) {
+				return s
+			}
+		}
+		return SUnknown{what + " is not a constant"}
+	}
+	switch tv.Value.Kind() {
+	case constant.Int:
+		return SConst{constant.ToInt(tv.Value)}
+	case constant.Bool:
+		return SConst{tv.Value}
+	case constant.Float:
+		if iv := constant.ToInt(tv.Value); iv.Kind() == constant.Int {
+			return SConst{iv}
+		}
+	}
+	return SUnknown{what + " is not an integer constant"}
+}
+
+// foldInts folds an integer operation on two constants.
+func foldInts(op token.Token, x, y Sym) (Sym, bool) {
+	a, ok1 := x.(SConst)
+	b, ok2 := y.(SConst)
+	if !ok1 || !ok2 || a.V.Kind() != constant.Int || b.V.Kind() != constant.Int {
+		return nil, false
+	}
+	switch op {
+	case token.SHL, token.SHR:
+		n, ok := constant.Uint64Val(b.V)
+		if !ok || n > 64 {
+			return nil, false
+		}
+		return SConst{constant.Shift(a.V, op, uint(n))}, true
+	}
+	return SConst{constant.BinaryOp(a.V, op, b.V)}, true
 }
 
 // inline sees through a call to a module function whose body is
@@ -234,7 +456,7 @@ func (ev *Evaluator) inline(call *ast.CallExpr) Sym {
 	if sig.Variadic() || i != len(call.Args) {
 		return SUnknown{"call arity"}
 	}
-	sub := &Evaluator{Info: info, Env: env, Defs: SingleDefs(info, fd.Body), Source: ev.Source, depth: ev.depth + 1}
+	sub := &Evaluator{Info: info, Env: env, Defs: SingleDefs(info, fd.Body), OkDefs: CommaOkDefs(info, fd.Body), Source: ev.Source, Vars: ev.Vars, Tables: ev.Tables, depth: ev.depth + 1}
 	s, why := sub.BoolResult(fd.Body)
 	if s == nil {
 		return SUnknown{"helper " + fn.Name() + ": " + why}
@@ -451,58 +673,78 @@ func Hex(v constant.Value) string { return hex(v) }
 
 // ---------------------------------------------------------------- decomposers
 
-// BitTest is one `if word&C … { acc = append(acc, name) }` of a decomposer.
+// BitTest is one `if word&C … { acc = append(acc, name) }` of a decomposer. A
+// test inside a loop over a constant table is instantiated once per row.
 type BitTest struct {
 	If       *ast.IfStmt
 	Cond     Sym
 	Test     *MaskTest
 	Err      *MaskErr
-	Names    []string     // constant strings appended in the body
-	Appended []types.Object // variables appended in the body (range key / value)
-	Acc      []string     // renderings of the accumulators appended to
+	Names    []string         // constant strings appended in the body
+	Appended []types.Object   // variables appended in the body (range key / value)
+	Values   []constant.Value // integer constants appended in the body (a decomposer into flag values)
+	Acc      []string         // renderings of the accumulators appended to
 	HasElse  bool
-	Other    int // statements in the body that are not appends
+	Other    int      // statements in the body that are not appends
+	Row      string   // the table row / iteration the test was instantiated for ("" outside loops)
+	Guard    bool     // written as `if !test { continue }` followed by the appends
+	Under    []string // enclosing constructs that make the test conditional and that the analysis does not interpret
 }
 
 // Decomp is what CollectBitTests finds in one function body.
 type Decomp struct {
 	Tests        []*BitTest
-	Placeholders []string // constant strings returned / appended outside any bit test
+	Placeholders []string        // constant strings returned / appended outside any bit test
+	Loops        []*Unrolled     // loops met on the way (resolved statically or not)
+	Helpers      []*ast.FuncDecl // module functions the flag word is handed to, whose tests are included
+	Problems     []Problem       // control flow that can skip tests or rows (break, continue, return inside a loop …)
+}
+
+// Problem is a construct that keeps the analysis from deciding a decomposer.
+type Problem struct {
+	Pos token.Pos
+	Msg string
+}
+
+type region struct{ lo, hi token.Pos }
+
+// isContinue: the block is exactly `continue` (of the innermost loop).
+func isContinue(b *ast.BlockStmt) bool {
+	if b == nil || len(b.List) != 1 {
+		return false
+	}
+	br, ok := b.List[0].(*ast.BranchStmt)
+	return ok && br.Tok == token.CONTINUE && br.Label == nil
 }
 
 // CollectBitTests walks body and returns every if-statement whose condition
-// involves the flag word.
+// involves the flag word. Loops over constant tables (and counting loops with
+// constant bounds) are unrolled: their body is interpreted once per row with
+// the loop variables bound to that row.
 func (ev *Evaluator) CollectBitTests(body ast.Node) *Decomp {
 	d := &Decomp{}
-	var inside []*ast.IfStmt
+	var inside []region
 	within := func(n ast.Node) bool {
-		for _, is := range inside {
-			if is.Body.Pos() <= n.Pos() && n.End() <= is.Body.End() {
+		for _, r := range inside {
+			if r.lo <= n.Pos() && n.End() <= r.hi {
 				return true
 			}
 		}
 		return false
 	}
-	ast.Inspect(body, func(n ast.Node) bool {
-		is, ok := n.(*ast.IfStmt)
-		if !ok {
-			return true
-		}
-		s := ev.Eval(is.Cond)
-		if !HasWord(s) {
-			return true
-		}
-		bt := &BitTest{If: is, Cond: s, HasElse: is.Else != nil}
-		bt.Test, bt.Err = AsMaskTest(s)
-		for _, st := range is.Body.List {
+	// scan interprets the statements executed when a test holds
+	scan := func(bt *BitTest, list []ast.Stmt) {
+		for _, st := range list {
 			as, ok := st.(*ast.AssignStmt)
 			if ok && len(as.Lhs) == 1 && len(as.Rhs) == 1 {
 				if call, ok := ast.Unparen(as.Rhs[0]).(*ast.CallExpr); ok && isBuiltin(ev.Info, call, "append") && len(call.Args) >= 2 &&
 					types.ExprString(as.Lhs[0]) == types.ExprString(call.Args[0]) && !call.Ellipsis.IsValid() {
 					bt.Acc = append(bt.Acc, types.ExprString(as.Lhs[0]))
 					for _, a := range call.Args[1:] {
-						if sv, ok := StringConst(ev.Info, a); ok {
+						if sv, ok := ev.StringOf(a); ok {
 							bt.Names = append(bt.Names, sv)
+						} else if c, ok := ev.Eval(a).(SConst); ok && c.V.Kind() == constant.Int {
+							bt.Values = append(bt.Values, c.V)
 						} else if id, ok := ast.Unparen(a).(*ast.Ident); ok && ev.Info.Uses[id] != nil {
 							bt.Appended = append(bt.Appended, ev.Info.Uses[id])
 						} else {
@@ -512,12 +754,160 @@ func (ev *Evaluator) CollectBitTests(body ast.Node) *Decomp {
 					continue
 				}
 			}
+			if _, ok := st.(*ast.EmptyStmt); ok {
+				continue
+			}
+			// names written to a strings.Builder / bytes.Buffer instead of appended to a slice
+			if recv, arg, ok := builderWrite(ev.Info, st); ok {
+				if sv, ok := ev.StringOf(arg); ok {
+					bt.Acc = append(bt.Acc, recv)
+					bt.Names = append(bt.Names, sv)
+					continue
+				}
+			}
+			// `if sb.Len() > 0 { sb.WriteByte('|') }`: a separator between names, not a name
+			if is, ok := st.(*ast.IfStmt); ok && is.Else == nil && is.Init == nil && !HasWord(ev.Eval(is.Cond)) && onlySeparators(ev.Info, is.Body) {
+				continue
+			}
 			bt.Other++
 		}
+	}
+	var visit func(n ast.Node, row string, under []string)
+	var visitLoopBody func(b *ast.BlockStmt, row string, under []string)
+	okBranch := map[ast.Stmt]bool{} // `continue` statements that are part of a recognised guard
+	handleIf := func(is *ast.IfStmt, row string, under []string) bool {
+		s := ev.Eval(is.Cond)
+		if !HasWord(s) {
+			return false
+		}
+		bt := &BitTest{If: is, Cond: s, HasElse: is.Else != nil, Row: row, Under: under}
+		bt.Test, bt.Err = AsMaskTest(s)
+		scan(bt, is.Body.List)
 		d.Tests = append(d.Tests, bt)
-		inside = append(inside, is)
+		inside = append(inside, region{is.Body.Pos(), is.Body.End()})
 		return true
-	})
+	}
+	handleLoop := func(loop ast.Stmt, row string, under []string) {
+		u, its, lb := ev.unroll(loop)
+		if u == nil {
+			return
+		}
+		d.Loops = append(d.Loops, u)
+		if u.Why != "" {
+			visit(lb, row, append(append([]string{}, under...), "a loop that is not resolved to constant rows")) // interpret the body once, unbound
+			return
+		}
+		for _, it := range its {
+			label := it.label
+			if row != "" {
+				label = row + ", " + label
+			}
+			leave := ev.enter(it)
+			visitLoopBody(lb, label, under)
+			leave()
+		}
+		// anything that leaves the loop or skips an iteration outside a recognised guard
+		ast.Inspect(lb, func(x ast.Node) bool {
+			switch x := x.(type) {
+			case *ast.FuncLit:
+				return false
+			case *ast.BranchStmt:
+				if !okBranch[x] {
+					d.Problems = append(d.Problems, Problem{x.Pos(), "`" + x.Tok.String() + "` inside a loop over table rows: iterations can be skipped or cut short under a condition the rule does not interpret"})
+				}
+			case *ast.ReturnStmt:
+				d.Problems = append(d.Problems, Problem{x.Pos(), "`return` inside a loop over table rows: the remaining rows are not visited"})
+			}
+			return true
+		})
+	}
+	visitLoopBody = func(b *ast.BlockStmt, row string, under []string) {
+		for i, st := range b.List {
+			// `if !test { continue }; appends…`  ≡  `if test { appends… }`
+			if is, ok := st.(*ast.IfStmt); ok && is.Init == nil && is.Else == nil && isContinue(is.Body) {
+				if s := ev.Eval(is.Cond); HasWord(s) {
+					okBranch[is.Body.List[0]] = true
+					bt := &BitTest{If: is, Cond: SNot{s}, Row: row, Guard: true, Under: under}
+					bt.Test, bt.Err = AsMaskTest(bt.Cond)
+					rest := b.List[i+1:]
+					scan(bt, rest)
+					d.Tests = append(d.Tests, bt)
+					if len(rest) > 0 {
+						inside = append(inside, region{rest[0].Pos(), b.End()})
+						for _, r := range rest {
+							visit(r, row, under)
+						}
+					}
+					return
+				}
+			}
+			visit(st, row, under)
+		}
+	}
+	visit = func(n ast.Node, row string, under []string) {
+		var stack []ast.Node
+		// enclosing returns the uninterpreted constructs between n and the node on top of the stack
+		enclosing := func() []string {
+			out := append([]string{}, under...)
+			for _, a := range stack[:len(stack)-1] {
+				switch a := a.(type) {
+				case *ast.IfStmt:
+					if !HasWord(ev.Eval(a.Cond)) {
+						out = append(out, "if "+types.ExprString(a.Cond))
+					}
+				case *ast.SwitchStmt, *ast.TypeSwitchStmt, *ast.SelectStmt:
+					out = append(out, "a switch")
+				case *ast.FuncLit:
+					out = append(out, "a function literal")
+				}
+			}
+			return out
+		}
+		ast.Inspect(n, func(x ast.Node) bool {
+			if x == nil {
+				stack = stack[:len(stack)-1]
+				return true
+			}
+			stack = append(stack, x)
+			descend := true
+			switch x := x.(type) {
+			case *ast.RangeStmt:
+				handleLoop(x, row, enclosing())
+				descend = false
+			case *ast.ForStmt:
+				handleLoop(x, row, enclosing())
+				descend = false
+			case *ast.IfStmt:
+				handleIf(x, row, enclosing())
+			case *ast.CallExpr:
+				if sub, fd := ev.enterHelper(x); sub != nil {
+					enc := enclosing()
+					sd := sub.CollectBitTests(fd.Body)
+					for _, bt := range sd.Tests {
+						if bt.Row == "" {
+							bt.Row = "in " + fd.Name.Name
+						} else {
+							bt.Row = "in " + fd.Name.Name + ": " + bt.Row
+						}
+						if row != "" {
+							bt.Row = row + ", " + bt.Row
+						}
+						bt.Under = append(append([]string{}, enc...), bt.Under...)
+					}
+					d.Tests = append(d.Tests, sd.Tests...)
+					d.Placeholders = append(d.Placeholders, sd.Placeholders...)
+					d.Loops = append(d.Loops, sd.Loops...)
+					d.Problems = append(d.Problems, sd.Problems...)
+					d.Helpers = append(append(d.Helpers, fd), sd.Helpers...)
+				}
+			}
+			if !descend {
+				stack = stack[:len(stack)-1] // Inspect does not call f(nil) when f returned false
+			}
+			return descend
+		})
+	}
+	visit(body, "", nil)
 	// placeholders: constant strings produced outside the bit tests
 	ast.Inspect(body, func(n ast.Node) bool {
 		switch n := n.(type) {
@@ -543,6 +933,152 @@ func (ev *Evaluator) CollectBitTests(body ast.Node) *Decomp {
 		return true
 	})
 	return d
+}
+
+// builderWrite recognises `b.WriteString(x)` on a strings.Builder / bytes.Buffer.
+func builderWrite(info *types.Info, st ast.Stmt) (recv string, arg ast.Expr, ok bool) {
+	es, isExpr := st.(*ast.ExprStmt)
+	if !isExpr {
+		return "", nil, false
+	}
+	call, isCall := es.X.(*ast.CallExpr)
+	if !isCall || len(call.Args) != 1 {
+		return "", nil, false
+	}
+	fn := StaticCallee(info, call)
+	if fn == nil || fn.Name() != "WriteString" || !isBuilderMethod(fn) {
+		return "", nil, false
+	}
+	sel := ast.Unparen(call.Fun).(*ast.SelectorExpr)
+	return types.ExprString(sel.X), call.Args[0], true
+}
+
+func isBuilderMethod(fn *types.Func) bool {
+	sig, ok := fn.Type().(*types.Signature)
+	if !ok || sig.Recv() == nil {
+		return false
+	}
+	t := sig.Recv().Type()
+	if p, ok := t.(*types.Pointer); ok {
+		t = p.Elem()
+	}
+	n, ok := t.(*types.Named)
+	if !ok || n.Obj().Pkg() == nil {
+		return false
+	}
+	full := n.Obj().Pkg().Path() + "." + n.Obj().Name()
+	return full == "strings.Builder" || full == "bytes.Buffer"
+}
+
+// onlySeparators: the block only writes constants of at most one character
+// (separators) to a builder.
+func onlySeparators(info *types.Info, b *ast.BlockStmt) bool {
+	if len(b.List) == 0 {
+		return false
+	}
+	for _, st := range b.List {
+		es, ok := st.(*ast.ExprStmt)
+		if !ok {
+			return false
+		}
+		call, ok := es.X.(*ast.CallExpr)
+		if !ok || len(call.Args) != 1 {
+			return false
+		}
+		fn := StaticCallee(info, call)
+		if fn == nil || !isBuilderMethod(fn) {
+			return false
+		}
+		tv, ok := info.Types[call.Args[0]]
+		if !ok || tv.Value == nil {
+			return false
+		}
+		switch fn.Name() {
+		case "WriteByte", "WriteRune":
+		case "WriteString":
+			if tv.Value.Kind() != constant.String || len([]rune(constant.StringVal(tv.Value))) > 1 {
+				return false
+			}
+		default:
+			return false
+		}
+	}
+	return true
+}
+
+// enterHelper prepares the interpretation of a module function the flag word
+// is handed to (as receiver or argument): the callee's parameters are bound to
+// the symbolic / static value of the arguments. Predicates (bool results) are
+// not entered: Eval sees through them where they are used as conditions.
+func (ev *Evaluator) enterHelper(call *ast.CallExpr) (*Evaluator, *ast.FuncDecl) {
+	if ev.Source == nil || ev.depth >= 2 {
+		return nil, nil
+	}
+	if tv, ok := ev.Info.Types[call.Fun]; ok && (tv.IsType() || tv.IsBuiltin()) {
+		return nil, nil
+	}
+	fn := StaticCallee(ev.Info, call)
+	if fn == nil {
+		return nil, nil
+	}
+	sig, ok := fn.Type().(*types.Signature)
+	if !ok || sig.Variadic() {
+		return nil, nil
+	}
+	if sig.Results().Len() == 1 {
+		if b, ok := sig.Results().At(0).Type().Underlying().(*types.Basic); ok && b.Kind() == types.Bool {
+			return nil, nil
+		}
+	}
+	fd, info := ev.Source(fn)
+	if fd == nil || fd.Body == nil || info == nil {
+		return nil, nil
+	}
+	env := map[types.Object]Sym{}
+	bind := map[types.Object]Val{}
+	word := false
+	give := func(param types.Object, arg ast.Expr) {
+		if param == nil {
+			return
+		}
+		s := ev.Eval(arg)
+		if HasWord(s) {
+			word = true
+		}
+		if assigned(info, fd.Body, param) {
+			return // the callee changes its parameter: leave it uninterpreted
+		}
+		if !hasUnknown(s) {
+			env[param] = s
+			return
+		}
+		if v, why := ev.Static(arg); why == "" {
+			bind[param] = v
+		}
+	}
+	if sig.Recv() != nil {
+		sel, ok := ast.Unparen(call.Fun).(*ast.SelectorExpr)
+		if !ok {
+			return nil, nil
+		}
+		if fd.Recv != nil && len(fd.Recv.List) == 1 && len(fd.Recv.List[0].Names) == 1 {
+			give(info.Defs[fd.Recv.List[0].Names[0]], sel.X)
+		}
+	}
+	i := 0
+	for _, f := range fd.Type.Params.List {
+		for _, n := range f.Names {
+			if i < len(call.Args) {
+				give(info.Defs[n], call.Args[i])
+			}
+			i++
+		}
+	}
+	if !word || i != len(call.Args) {
+		return nil, nil
+	}
+	return &Evaluator{Info: info, Env: env, Bind: bind, Defs: SingleDefs(info, fd.Body), OkDefs: CommaOkDefs(info, fd.Body), Source: ev.Source, Vars: ev.Vars,
+		Tables: ev.Tables, depth: ev.depth + 1}, fd
 }
 
 // MapRanges returns the range statements of body whose operand is a map.
@@ -616,6 +1152,59 @@ func totalLess(info *types.Info, fl *ast.FuncLit, v types.Object) bool {
 	return a != nil && b != nil && a != b && ((a == ps[0] && b == ps[1]) || (a == ps[1] && b == ps[0]))
 }
 
+// totalCompare recognises a three-way comparison that is a total order on
+// distinct elements: cmp.Compare / strings.Compare themselves, or
+// `func(a, b T) int { return cmp.Compare(a, b) }` (operands in either order).
+func totalCompare(info *types.Info, e ast.Expr) bool {
+	isCmp := func(x ast.Expr) bool {
+		x = ast.Unparen(x)
+		if ix, ok := x.(*ast.IndexExpr); ok { // cmp.Compare[T]
+			x = ast.Unparen(ix.X)
+		}
+		var id *ast.Ident
+		switch f := x.(type) {
+		case *ast.Ident:
+			id = f
+		case *ast.SelectorExpr:
+			id = f.Sel
+		}
+		if id == nil {
+			return false
+		}
+		fn, _ := info.Uses[id].(*types.Func)
+		return IsPkgFunc(fn, "cmp", "Compare") || IsPkgFunc(fn, "strings", "Compare")
+	}
+	if isCmp(e) {
+		return true
+	}
+	fl, ok := ast.Unparen(e).(*ast.FuncLit)
+	if !ok || fl.Type.Params == nil || len(fl.Body.List) != 1 {
+		return false
+	}
+	var ps []types.Object
+	for _, f := range fl.Type.Params.List {
+		for _, n := range f.Names {
+			ps = append(ps, info.Defs[n])
+		}
+	}
+	r, ok := fl.Body.List[0].(*ast.ReturnStmt)
+	if len(ps) != 2 || !ok || len(r.Results) != 1 {
+		return false
+	}
+	call, ok := ast.Unparen(r.Results[0]).(*ast.CallExpr)
+	if !ok || !isCmp(call.Fun) || len(call.Args) != 2 {
+		return false
+	}
+	arg := func(x ast.Expr) types.Object {
+		if id, ok := ast.Unparen(x).(*ast.Ident); ok {
+			return info.Uses[id]
+		}
+		return nil
+	}
+	a, b := arg(call.Args[0]), arg(call.Args[1])
+	return a != nil && b != nil && a != b && ((a == ps[0] && b == ps[1]) || (a == ps[1] && b == ps[0]))
+}
+
 // OrderAfterRange decides that the iteration order of the map range rs (a
 // statement of the top-level list of body) cannot reach the function's result:
 // every variable written inside the loop is passed to sort.* before any other
@@ -680,9 +1269,13 @@ func OrderAfterRange(info *types.Info, body *ast.BlockStmt, rs *ast.RangeStmt) (
 					if id, ok := a.(*ast.Ident); ok {
 						if o := info.Uses[id]; o != nil && tainted[o] && !sorted[o] {
 							switch fn.Name() {
-							case "Slice", "SliceStable", "SortFunc", "SortStableFunc":
+							case "Slice", "SliceStable":
 								fl, ok := ast.Unparen(call.Args[1]).(*ast.FuncLit)
 								if fn.Pkg().Path() != "sort" || !ok || !totalLess(info, fl, o) {
+									return "undecided", "cannot decide that the comparison passed to " + fn.FullName() + " is a total order on the elements"
+								}
+							case "SortFunc", "SortStableFunc":
+								if len(call.Args) != 2 || !totalCompare(info, call.Args[1]) {
 									return "undecided", "cannot decide that the comparison passed to " + fn.FullName() + " is a total order on the elements"
 								}
 							}
@@ -737,267 +1330,4 @@ func stmtString(s ast.Stmt) string {
 		}
 	}
 	return fmt.Sprintf("%T", s)
-}
-
-// ---------------------------------------------------------------- lookup functions
-
-// Atom is one conjunct of a path condition in a lookup function.
-type Atom struct {
-	Kind string         // "found" (comma-ok lookup of recv in Map succeeded), "eq" (recv == K), "unknown"
-	Map  *types.Var     // for "found"
-	K    constant.Value // for "eq"
-	Neg  bool
-	Text string
-}
-
-// RetPath is one `return` of a lookup function with the conditions under which
-// it is reached.
-type RetPath struct {
-	Conds  []Atom
-	Ret    *ast.ReturnStmt
-	Result ast.Expr // nil for a bare return
-}
-
-func (p *RetPath) Has(kind string, neg bool, pred func(Atom) bool) bool {
-	for _, a := range p.Conds {
-		if a.Kind == kind && a.Neg == neg && (pred == nil || pred(a)) {
-			return true
-		}
-	}
-	return false
-}
-
-func (p *RetPath) HasUnknown() (string, bool) {
-	for _, a := range p.Conds {
-		if a.Kind == "unknown" {
-			return a.Text, true
-		}
-	}
-	return "", false
-}
-
-// Lookup analyses small functions of the shape "compare the receiver with
-// constants, look it up in package-level maps, return".
-type Lookup struct {
-	Info    *types.Info
-	Recv    types.Object
-	OkVars  map[types.Object]*types.Var // comma-ok flag → map looked up with the receiver
-	ValVars map[types.Object]*types.Var // looked-up value → map
-	Paths   []*RetPath
-	Problems []string
-}
-
-func (lk *Lookup) isRecv(e ast.Expr) bool {
-	e = ast.Unparen(e)
-	if c, ok := e.(*ast.CallExpr); ok && len(c.Args) == 1 {
-		if tv, ok := lk.Info.Types[c.Fun]; ok && tv.IsType() {
-			e = ast.Unparen(c.Args[0])
-		}
-	}
-	id, ok := e.(*ast.Ident)
-	return ok && lk.Info.Uses[id] == lk.Recv
-}
-
-// MapIndexOfRecv returns the package-level map m when e is `m[recv]`.
-func (lk *Lookup) MapIndexOfRecv(e ast.Expr) *types.Var {
-	ie, ok := ast.Unparen(e).(*ast.IndexExpr)
-	if !ok || !lk.isRecv(ie.Index) {
-		return nil
-	}
-	var id *ast.Ident
-	switch x := ast.Unparen(ie.X).(type) {
-	case *ast.Ident:
-		id = x
-	case *ast.SelectorExpr:
-		id = x.Sel
-	}
-	if id == nil {
-		return nil
-	}
-	v, _ := lk.Info.Uses[id].(*types.Var)
-	if v == nil || v.Parent() == nil || v.Pkg() == nil || v.Parent() != v.Pkg().Scope() {
-		return nil
-	}
-	return v
-}
-
-func (lk *Lookup) bind(s ast.Stmt) bool {
-	as, ok := s.(*ast.AssignStmt)
-	if !ok {
-		return false
-	}
-	if len(as.Lhs) == 2 && len(as.Rhs) == 1 {
-		m := lk.MapIndexOfRecv(as.Rhs[0])
-		if m == nil {
-			return false
-		}
-		for i, l := range as.Lhs {
-			id, ok := l.(*ast.Ident)
-			if !ok {
-				return false
-			}
-			if id.Name == "_" {
-				continue
-			}
-			o := lk.Info.Defs[id]
-			if o == nil {
-				o = lk.Info.Uses[id]
-			}
-			if i == 0 {
-				lk.ValVars[o] = m
-			} else {
-				lk.OkVars[o] = m
-			}
-		}
-		return true
-	}
-	return false
-}
-
-func (lk *Lookup) cond(e ast.Expr) (t, f []Atom) {
-	e = ast.Unparen(e)
-	unk := func() ([]Atom, []Atom) {
-		a := Atom{Kind: "unknown", Text: types.ExprString(e)}
-		return []Atom{a}, []Atom{a}
-	}
-	switch e := e.(type) {
-	case *ast.Ident:
-		if m := lk.OkVars[lk.Info.Uses[e]]; m != nil {
-			return []Atom{{Kind: "found", Map: m}}, []Atom{{Kind: "found", Map: m, Neg: true}}
-		}
-	case *ast.UnaryExpr:
-		if e.Op == token.NOT {
-			t, f := lk.cond(e.X)
-			return f, t
-		}
-	case *ast.BinaryExpr:
-		switch e.Op {
-		case token.EQL, token.NEQ:
-			for _, p := range [][2]ast.Expr{{e.X, e.Y}, {e.Y, e.X}} {
-				if !lk.isRecv(p[0]) {
-					continue
-				}
-				if tv, ok := lk.Info.Types[p[1]]; ok && tv.Value != nil && tv.Value.Kind() == constant.Int {
-					eq := Atom{Kind: "eq", K: constant.ToInt(tv.Value), Text: types.ExprString(e)}
-					ne := eq
-					ne.Neg = true
-					if e.Op == token.EQL {
-						return []Atom{eq}, []Atom{ne}
-					}
-					return []Atom{ne}, []Atom{eq}
-				}
-			}
-		case token.LAND:
-			t1, _ := lk.cond(e.X)
-			t2, _ := lk.cond(e.Y)
-			return append(append([]Atom{}, t1...), t2...), []Atom{{Kind: "unknown", Text: "!(" + types.ExprString(e) + ")"}}
-		}
-	}
-	return unk()
-}
-
-func with(c []Atom, more []Atom) []Atom { return append(append([]Atom{}, c...), more...) }
-
-// walk returns whether control can fall out of the statement list.
-func (lk *Lookup) walk(list []ast.Stmt, conds []Atom) bool {
-	for _, s := range list {
-		switch s := s.(type) {
-		case *ast.ReturnStmt:
-			p := &RetPath{Conds: conds, Ret: s}
-			if len(s.Results) == 1 {
-				p.Result = s.Results[0]
-			} else if len(s.Results) > 1 {
-				lk.Problems = append(lk.Problems, "multi-value return")
-			}
-			lk.Paths = append(lk.Paths, p)
-			return false
-		case *ast.BlockStmt:
-			if !lk.walk(s.List, conds) {
-				return false
-			}
-		case *ast.IfStmt:
-			if s.Init != nil && !lk.bind(s.Init) {
-				lk.Problems = append(lk.Problems, "unrecognised if-initialiser")
-			}
-			t, f := lk.cond(s.Cond)
-			ft := lk.walk(s.Body.List, with(conds, t))
-			ff := true
-			switch e := s.Else.(type) {
-			case *ast.BlockStmt:
-				ff = lk.walk(e.List, with(conds, f))
-			case *ast.IfStmt:
-				ff = lk.walk([]ast.Stmt{e}, with(conds, f))
-			}
-			switch {
-			case !ft && !ff:
-				return false
-			case !ft:
-				conds = with(conds, f)
-			case !ff:
-				conds = with(conds, t)
-			}
-		case *ast.AssignStmt:
-			if !lk.bind(s) {
-				lk.Problems = append(lk.Problems, "statement `"+stmtString(s)+"` is not a table lookup of the receiver")
-			}
-		case *ast.EmptyStmt, *ast.DeclStmt:
-		default:
-			lk.Problems = append(lk.Problems, fmt.Sprintf("unrecognised statement %T", s))
-		}
-	}
-	return true
-}
-
-// AnalyseLookup walks the body of a lookup method.
-func AnalyseLookup(info *types.Info, fd *ast.FuncDecl) *Lookup {
-	lk := &Lookup{Info: info, OkVars: map[types.Object]*types.Var{}, ValVars: map[types.Object]*types.Var{}}
-	if fd.Recv != nil && len(fd.Recv.List) == 1 && len(fd.Recv.List[0].Names) == 1 {
-		lk.Recv = info.Defs[fd.Recv.List[0].Names[0]]
-	}
-	if lk.Recv == nil {
-		lk.Problems = append(lk.Problems, "method has no named receiver")
-		return lk
-	}
-	if lk.walk(fd.Body.List, nil) {
-		lk.Problems = append(lk.Problems, "control can reach the end of the function without a return")
-	}
-	return lk
-}
-
-// NameOf classifies the string a path returns: the value found in map m for the
-// receiver (possibly wrapped by Sprintf with a %s/%v verb), a literal, or a
-// Sprintf pattern.
-type NameResult struct {
-	FromMap *types.Var // value looked up in this map
-	Literal *string
-	Pattern *string // Sprintf format when no operand is a looked-up value
-	Other   string
-}
-
-func (lk *Lookup) ClassifyString(e ast.Expr) NameResult {
-	e = ast.Unparen(e)
-	if sv, ok := StringConst(lk.Info, e); ok {
-		return NameResult{Literal: &sv}
-	}
-	if id, ok := e.(*ast.Ident); ok {
-		if m := lk.ValVars[lk.Info.Uses[id]]; m != nil {
-			return NameResult{FromMap: m}
-		}
-	}
-	if m := lk.MapIndexOfRecv(e); m != nil {
-		return NameResult{FromMap: m}
-	}
-	if call, ok := e.(*ast.CallExpr); ok && IsPkgFunc(StaticCallee(lk.Info, call), "fmt", "Sprintf") && len(call.Args) >= 1 {
-		if f, ok := StringConst(lk.Info, call.Args[0]); ok {
-			for _, v := range ParseFormat(f) {
-				if v.Arg+1 < len(call.Args) && (v.Verb == 's' || v.Verb == 'v') {
-					if r := lk.ClassifyString(call.Args[v.Arg+1]); r.FromMap != nil {
-						return r
-					}
-				}
-			}
-			return NameResult{Pattern: &f}
-		}
-	}
-	return NameResult{Other: types.ExprString(e)}
 }
